@@ -65,6 +65,7 @@ typedef struct { uint32_t seg[MAXSEG]; int nseg, next; uint64_t total, accepted;
 
 /* segmentation of a stream of `total` bytes whose running total crosses `thr` at a chosen residue */
 static int mix_bigpos;
+#define ALL_LANES 7ull
 static void plan(job_t *j, rng_t *r, uint64_t thr, int jidx, int block)
 {
         if (thr == 0) {
@@ -81,6 +82,14 @@ static void plan(job_t *j, rng_t *r, uint64_t thr, int jidx, int block)
                         for (int i = 0; i < ns; i++) j->seg[j->nseg++] = rng_below(r, 4) == 0 ? rng_below(r, 100000) : rng_below(r, 4 * (uint32_t) block);
                 }
                 j->total = 0; for (int i = 0; i < j->nseg; i++) j->total += j->seg[i];
+                return;
+        }
+        if (thr == ALL_LANES) {
+                /* every lane of the manager holds a single segment of at least 2^24 blocks at the same time (the packed per-lane
+                 * lengths have their top nibbles set while the shortest lane is selected and subtracted); lengths are distinct */
+                j->next = 0; j->accepted = 0; j->inflight = 0; j->done = 0; j->nseg = 1;
+                uint64_t t = ((1ull << 24) + (uint64_t) jidx * 3 + rng_below(r, 3)) * (uint64_t) block + (jidx % 4 == 0 ? 0 : rng_below(r, (uint32_t) block));
+                j->seg[0] = (uint32_t) t; j->total = t;
                 return;
         }
         static const int64_t dthr[] = { 0, -1, 1, -64, 64, -63, 63, 7 };
@@ -202,6 +211,11 @@ static void lane_pairs(const halg_t *a, const hfam_t *f)
                                 continue;
                         }
                         nsmall++;
+                        { static int ns; if (ns < 44) { ns++; clog_on = 1;
+                          clog_title("lane-magnitude probe: the lanes of one manager hold jobs of very different lengths (one of them >= 2^31 bytes or 2 GiB); the short jobs must be handed back, complete and with the reference digest, while the long one is still in flight");
+                          clog_event("%s %s %s path trial %d (long job at position %d, len %u): handed back job %d of length %u as number %d of %d short jobs, status %d", a->name, f->name, path ? "flush" : "submit", t, bigpos, bigpos >= 0 ? len[bigpos] : 0, ri, len[ri], nsmall, nsmall_target,
+                                     *(int32_t *) (ctx[ri] + a->off_status));
+                          clog_on = 0; } }
                         uint8_t got[64] = { 0 }, exp[64] = { 0 };
                         halg_digest_bytes(a, ctx[ri], got);
                         if (len[ri] <= 4096) ref_hash(a->ref_alg, stream + off[ri], len[ri], exp);
@@ -290,6 +304,7 @@ int hashmb_big(int argc, char **argv)
         uint64_t thr[3]; int nthr = 0;
         const char *ts = arg_str("--thr", "29");
         if (strstr(ts, "mix")) thr[nthr++] = 0;
+        if (strstr(ts, "lanes")) thr[nthr++] = ALL_LANES;
         if (strstr(ts, "29")) thr[nthr++] = 1ull << 29;
         if (strstr(ts, "32")) thr[nthr++] = 1ull << 32;
         if (strstr(ts, "33")) thr[nthr++] = (1ull << 32) + (1ull << 29);
@@ -320,6 +335,8 @@ int hashmb_big(int argc, char **argv)
                 const hfam_t *f = &a->fam[fi];
                 for (int ti = 0; ti < nthr && njobs[fi]; ti++) for (int rd = 0; rd < rounds; rd++) {
                         job_t *J = jobs[fi][ti][rd]; int n = njobs[fi];
+                        /* all-lanes rounds come in three shapes: lanes+1 jobs (the kernel starts on a submit), lanes-1 jobs and 2 jobs (it starts on a flush) */
+                        if (thr[ti] == ALL_LANES) { int shape = (rd + (int) (g_seed % 3) + fi) % 3; if (shape == 1 && f->lanes > 2) n = f->lanes - 1; else if (shape == 2) n = 2; if (n > njobs[fi]) n = njobs[fi]; }
                         snprintf(rb, sizeof rb, "{\"engine\":\"hashmb\",\"mode\":\"big\",\"alg\":\"%s\",\"fam\":\"%s\",\"thr\":%llu,\"round\":%d,\"seed\":%llu}", a->name, f->name, (unsigned long long) thr[ti], rd, (unsigned long long) g_seed);
                         snprintf(cur_replay, sizeof cur_replay, "%s", rb);
                         uint8_t *mgr = aligned_alloc(64, (a->mgr_size + 63) & ~(size_t) 63);
@@ -371,11 +388,18 @@ int hashmb_big(int argc, char **argv)
                                                         if (j->want < 0 || memcmp(got, wants[j->want].digest, (size_t) a->dbytes)) {
                                                                 char g[129], e[129]; hex(g, got, (size_t) a->dbytes); hex(e, wants[j->want].digest, (size_t) a->dbytes);
                                                                 char segs[300]; size_t so = 0; for (int q = 0; q < j->nseg && so + 12 < sizeof segs; q++) so += (size_t) snprintf(segs + so, sizeof segs - so, "%u,", j->seg[q]);
-                                                                snprintf(key, sizeof key, "big-digest %s %s thr=%s", a->name, f->name, thr[ti] == 0 ? "mixed-sizes" : thr[ti] == (1ull << 29) ? "2^29" : thr[ti] == (1ull << 32) ? "2^32" : "2^32+2^29");
+                                                                snprintf(key, sizeof key, "big-digest %s %s thr=%s", a->name, f->name, thr[ti] == 0 ? "mixed-sizes" : thr[ti] == ALL_LANES ? "all-lanes-2^24-blocks" : thr[ti] == (1ull << 29) ? "2^29" : thr[ti] == (1ull << 32) ? "2^32" : "2^32+2^29");
                                                                 out_viol(g_prop, key, rb, "total %llu bytes, segments %s digest %s expected %s", (unsigned long long) j->total, segs, g, e);
                                                         }
+                                                        { static int ns; if (ns < 44) { ns++; char g[129]; hex(g, got, (size_t) a->dbytes);
+                                                          char segs[160]; size_t so = 0; for (int q = 0; q < j->nseg && so + 12 < sizeof segs; q++) so += (size_t) snprintf(segs + so, sizeof segs - so, "%u,", j->seg[q]);
+                                                          clog_on = 1;
+                                                          clog_title("multi-GiB streams across the length thresholds: each job is fed from a periodic memfd mirror in the listed segments (FIRST ... LAST), the context's total_length is read at every hand-back, the digest is compared with an OpenSSL streaming pass over the same bytes");
+                                                          clog_event("%s %s: job of %llu bytes in segments [%s] completed with total_length %llu, digest %s, %s", a->name, f->name, (unsigned long long) j->total, segs, (unsigned long long) tl, g,
+                                                                     j->want >= 0 && !memcmp(got, wants[j->want].digest, (size_t) a->dbytes) ? "equal to OpenSSL" : "DIFFERS");
+                                                          clog_on = 0; } }
                                                         out_count("big_jobs_completed", 1);
-                                                        char cn[64]; snprintf(cn, sizeof cn, "big_jobs_%s", thr[ti] == 0 ? "mixed-sizes" : thr[ti] == (1ull << 29) ? "2^29" : thr[ti] == (1ull << 32) ? "2^32" : "2^32+2^29"); out_count(cn, 1);
+                                                        char cn[64]; snprintf(cn, sizeof cn, "big_jobs_%s", thr[ti] == 0 ? "mixed-sizes" : thr[ti] == ALL_LANES ? "all-lanes-2^24-blocks" : thr[ti] == (1ull << 29) ? "2^29" : thr[ti] == (1ull << 32) ? "2^32" : "2^32+2^29"); out_count(cn, 1);
                                                 }
                                                 ret = NULL;
                                         }
